@@ -46,23 +46,27 @@ def verify(d):
     return 0 if res.get("ok") else 1
 
 def run(d, tier="quick"):
+    """Runs the property's check against a scratch worktree of /repo HEAD with the patch
+    applied (DEEPDIFF_REPO), so that /repo itself is never modified while other work is
+    going on.  (Equivalent to: git -C /repo apply patch.diff; ./check ...; git -C /repo checkout -- .)"""
     d = os.path.abspath(d)
     meta = json.load(open(os.path.join(d, "meta.json")))
     props = meta["property"] if isinstance(meta["property"], list) else [meta["property"]]
-    rc, out = sh("git -C /repo status --porcelain")
-    if out.strip():
-        print("refusing: /repo has uncommitted changes"); return 2
-    rc, out = sh("git -C /repo apply %s/patch.diff" % d)
-    if rc != 0:
-        print("patch does not apply:", out); return 2
+    wt = tempfile.mkdtemp(prefix="seedrun_")
+    os.rmdir(wt)
+    sh("git -C /repo worktree add --detach %s HEAD" % wt)
     results = {}
     try:
+        rc, out = sh("git -C %s apply %s/patch.diff" % (wt, d))
+        if rc != 0:
+            print("patch does not apply:", out); return 2
         for p in props:
-            rc, out = sh("cd /verif && timeout 1800 ./check %s --tier %s %s" % (p, tier, os.environ.get("SEEDED_ARGS", "")))
+            rc, out = sh("cd /verif && DEEPDIFF_REPO=%s timeout 1800 ./check %s --tier %s %s" % (wt, p, tier, os.environ.get("SEEDED_ARGS", "")))
             lines = [l for l in out.splitlines() if l.startswith(("VIOLATION", "KNOWN-FINDING", "OK ", "FAIL "))]
             results[p] = {"rc": rc, "lines": [l[:300] for l in lines]}
     finally:
-        sh("git -C /repo checkout -- .")
+        sh("git -C /repo worktree remove --force %s" % wt)
+        shutil.rmtree(wt, ignore_errors=True)
     print(json.dumps(results, indent=1))
     detected = all(any(l.startswith("VIOLATION") for l in r["lines"]) for r in results.values())
     print("DETECTED" if detected else "MISSED")
